@@ -250,3 +250,33 @@ def check(run, prog, tier):
         ok = len(texts) == 1 and texts == btexts
         run.ob("C09-f", inst, ok, "all_users allocated with %s element(s); max_users advanced to %s" % (sorted(texts), sorted(btexts)), f.file, counts[0][0], f.name,
                what="%s allocates all_users with %s slots but advances max_users to %s: the recorded table length can exceed the allocation (writes and scans past the end)" % (f.name, sorted(texts), sorted(btexts)))
+
+    # ---- C09-h a sentence attached to a connection is complete, or detached again, before an error can leave the function
+    run.rule("C09-h", "input_to()/get_char(): after set_call() attached the sentence to the connection, every raising exit is preceded by the store that detaches it (->input_to = 0); otherwise the next input line calls through a sentence without a function", 2)
+    nh = 0
+    for f in sorted(prog.functions(), key=lambda x: (x.file, x.line)):
+        scs = [(b, i, n) for b, i, n in f.calls("set_call")]
+        if not scs or f.name == "set_call":
+            continue
+        b0, i0, n0 = scs[0]
+        # success edge of `if (!set_call(..))` / `if (set_call(..))`
+        c = f.branch_cond(b0.id)
+        if c is None or not any(x.get("k") == "Call" and x.get("fn") == "set_call" for x in walk(c)):
+            continue
+        c0, t0 = normalize_cond(c, True)
+        blk = f.blocks[b0.id]
+        succ_ok = blk.succ[0] if t0 else blk.succ[1]
+        nh += 1
+        run.saw(f)
+        detach = {b.id for b, i, n in f.nodes() if n.get("k") == "Asg" and n.get("op") == "=" and strip(n["L"]).get("k") == "Mem" and strip(n["L"]).get("f") == "input_to" and const_val(n["R"]) == 0}
+        complete = {b.id for b, i, n in f.nodes() if n.get("k") == "Asg" and n.get("op") == "=" and strip(n["L"]).get("k") == "Mem" and strip(n["L"]).get("f") in ("f", "function") and any(x.get("k") == "Mem" and x.get("f") == "function" for x in walk(n["L"]))}
+        raises = [(b, i, n) for b, i, n in f.calls() if n.get("nr") and n.get("fn") in ("error", "fatal", "bad_argument")]
+        bad = []
+        for b, i, n in raises:
+            p = f.reach_avoiding([succ_ok], lambda blk2, t=b.id: blk2.id == t, avoid_blocks=detach | complete)
+            if p is not None:
+                bad.append((n.get("l"), p))
+        run.ob("C09-h", "attached-sentence:%s:%s" % (rel(f.file), f.name), not bad, "every error() after set_call() succeeded is preceded by `->input_to = 0` (or the sentence is already complete)" if not bad else
+               "error() at line %s is reachable (path %s) with the half-built sentence still attached to the connection" % (bad[0][0], bad[0][1][:8]), f.file, bad[0][0] if bad else n0.get("l"), f.name,
+               what="%s can raise an error while a sentence without a callback is attached to the user: the next input line dereferences its NULL function pointer" % f.name)
+    run.need(nh >= 2, "functions attaching an input_to sentence (found %d)" % nh)
